@@ -105,7 +105,9 @@ PROPS = {
                  "decodeCorrupt (truncated / damaged input, result ignored) and reslice (the caller shortens a target's slices, keeping their "
                  "capacity). A second state machine does the same for the JSON-any codecs: 2-8 decodes of generated map[string]any / []any trees "
                  "(few distinct keys, nil elements) into one re-used target at top level or in a struct field, with reslice and fresh-target "
-                 "steps; model: an array holds exactly the decoded elements, an object keeps its members and takes the decoded ones."),
+                 "steps; model: an array holds exactly the decoded elements, an object keeps its members and takes the decoded ones. On default-"
+                 "mode instances a quarter of the decodeInto steps (types without maps) take the bytes a twin instance with "
+                 "ProtoCompatibleArrays writes for the same value: the repeated form, which the default-mode reader appends."),
         "jobs": [{"run": "^TestC10", "shards": 48, "quick_shards": 4, "timeout_quick": 600, "timeout_thorough": 3000}],
     },
     "C12": {
@@ -174,7 +176,10 @@ PROPS = {
                  "rendering of the normalised value: structs as objects keyed by json-or-Go name with omitted fields absent, slices as arrays "
                  "element for element, string-keyed maps as objects and other maps as {key,value} lists (both as multisets), pointers as their "
                  "target (null when nil), times as RFC 3339 by instant, integers as exact decimal text, floats by ParseFloat equality, invalid "
-                 "UTF-8 after U+FFFD replacement. Non-trivial = output has a non-empty array or object; distinct by case hash."),
+                 "UTF-8 after U+FFFD replacement. Each case also walks with one outputter that is re-used (Reset before each walk) after a rejected "
+                 "input, non-finite numbers or an unfinished walk, and must give the same bytes as a new one. One case in six that contains a "
+                 "time runs on an instance with BQTimestampCodec registered for time.Time (whole microseconds; same expected JSON). "
+                 "Non-trivial = output has a non-empty array or object; distinct by case hash."),
         "jobs": [{"run": "^TestC13", "shards": 32, "quick_shards": 4, "timeout_quick": 600, "timeout_thorough": 3000}],
     },
     "C16": {
